@@ -153,7 +153,7 @@ where
     let stop = AtomicUsize::new(0);
     std::thread::scope(|s| {
         for _ in 0..threads.max(1) {
-            s.spawn(|| {
+            std::thread::Builder::new().stack_size(256 << 20).spawn_scoped(s, || {
                 let mut local = Report::new();
                 loop {
                     if stop.load(Ordering::Relaxed) != 0 {
@@ -169,7 +169,7 @@ where
                     }
                 }
                 total.lock().unwrap().merge(local);
-            });
+            }).expect("spawn worker");
         }
     });
     total.into_inner().unwrap()
@@ -365,11 +365,16 @@ pub fn quiet_panics() {
             "panic".to_string()
         };
         let loc = info.location().map(|l| format!("{}:{}", l.file(), l.line())).unwrap_or_default();
+        if CATCH_DEPTH.with(|d| d.get()) == 0 {
+            // a panic of the harness itself: never silent
+            eprintln!("HARNESS PANIC '{}' at {}", msg, loc);
+        }
         LAST_PANIC.with(|p| *p.borrow_mut() = Some((msg, loc)));
     }));
 }
 
 thread_local! {
+    pub static CATCH_DEPTH: std::cell::Cell<u32> = const { std::cell::Cell::new(0) };
     pub static LAST_PANIC: std::cell::RefCell<Option<(String, String)>> = const { std::cell::RefCell::new(None) };
 }
 
@@ -379,7 +384,10 @@ pub fn take_panic() -> (String, String) {
 
 /// Run `f`, turning a panic into `Err((message, file:line))`.
 pub fn catch<R>(f: impl FnOnce() -> R) -> Result<R, (String, String)> {
-    match std::panic::catch_unwind(std::panic::AssertUnwindSafe(f)) {
+    CATCH_DEPTH.with(|d| d.set(d.get() + 1));
+    let r = std::panic::catch_unwind(std::panic::AssertUnwindSafe(f));
+    CATCH_DEPTH.with(|d| d.set(d.get() - 1));
+    match r {
         Ok(r) => Ok(r),
         Err(_) => Err(take_panic()),
     }
